@@ -45,6 +45,25 @@ impl Default for NetDriverContextDetail {
     }
 }
 
+/// Verification seam: per-thread record of which shared slot of a driver context a handler touched.
+#[cfg(feature = "verif")]
+pub mod verif_access {
+    use std::cell::RefCell;
+
+    thread_local! {
+        static TRACE: RefCell<Vec<&'static str>> = const { RefCell::new(Vec::new()) };
+    }
+
+    pub(super) fn note(what: &'static str) {
+        TRACE.with(|t| t.borrow_mut().push(what));
+    }
+
+    /// The accesses made on this thread since the last call.
+    pub fn take() -> Vec<&'static str> {
+        TRACE.with(|t| std::mem::take(&mut *t.borrow_mut()))
+    }
+}
+
 #[derive(Default, Clone)]
 pub struct NetDriverContext {
     detail: std::sync::Arc<std::sync::Mutex<NetDriverContextDetail>>,
@@ -52,36 +71,52 @@ pub struct NetDriverContext {
 
 impl NetDriverContext {
     pub fn inner(&self) -> std::sync::MutexGuard<NetDriverContextDetail> {
+        #[cfg(feature = "verif")]
+        verif_access::note("inner");
         self.detail.lock().unwrap()
     }
 
     /// Check if the last message was sent within a timeout.
     pub fn is_rx_timeout(&self, timeout: Duration) -> bool {
+        #[cfg(feature = "verif")]
+        verif_access::note("rx_time_read");
         self.detail.lock().unwrap().is_rx_timeout(timeout)
     }
 
     /// Mark the last time a message was received.
     pub fn rx_mark(&self) {
+        #[cfg(feature = "verif")]
+        verif_access::note("rx_mark");
         self.detail.lock().unwrap().rx_mark();
     }
 
     pub fn set_tx_last_message(&self, message: ObjectMessage) {
+        #[cfg(feature = "verif")]
+        verif_access::note("tx_write");
         self.detail.lock().unwrap().tx_last_message = Some(message);
     }
 
     pub fn set_rx_last_message(&self, message: ObjectMessage) {
+        #[cfg(feature = "verif")]
+        verif_access::note("rx_write");
         self.detail.lock().unwrap().rx_last_message = Some(message);
     }
 
     pub fn tx_last_message(&self) -> Option<ObjectMessage> {
+        #[cfg(feature = "verif")]
+        verif_access::note("tx_read");
         self.detail.lock().unwrap().tx_last_message.clone()
     }
 
     pub fn rx_last_message(&self) -> Option<ObjectMessage> {
+        #[cfg(feature = "verif")]
+        verif_access::note("rx_read");
         self.detail.lock().unwrap().rx_last_message.clone()
     }
 
     pub fn rx_count(&self) -> u64 {
+        #[cfg(feature = "verif")]
+        verif_access::note("rx_count_read");
         self.detail.lock().unwrap().rx_count
     }
 }
